@@ -32,6 +32,51 @@ class Spec(object):
         return []
 
 
+def conc_scenarios():
+    """DELETE of an entity racing with a request that starts using it."""
+    four = {'total': 4}
+    X, T = world.CUSTOM_CLASS, world.CUSTOM_TRAIT
+    base = [reqs.mk_rp(1), reqs.mk_rp(2), reqs.post_class(X), reqs.put_trait(T),
+            reqs.put_invs(P(1), 0, {'VCPU': four})]
+    pairs = [
+        ('DELETE class || PUT inventories using it',
+         reqs.del_class(X), reqs.put_invs(P(1), 1, {'VCPU': four, X: four})),
+        ('DELETE class || POST inventory of it', reqs.del_class(X), reqs.post_inv(P(2), X, four)),
+        ('DELETE trait || PUT provider traits using it',
+         reqs.del_trait(T), reqs.put_traits(P(1), 1, [T])),
+        ('DELETE provider || PUT inventories on it',
+         reqs.del_rp(P(2)), reqs.put_invs(P(2), 0, {'VCPU': four})),
+        ('DELETE provider || PUT allocations on it',
+         reqs.del_rp(P(1)), reqs.put_alloc(K(1), {P(1): {'VCPU': 1}})),
+        ('DELETE provider || PUT provider traits', reqs.del_rp(P(2)),
+         reqs.put_traits(P(2), 0, [T])),
+        ('DELETE provider || PUT aggregates', reqs.del_rp(P(2)),
+         reqs.put_aggs(P(2), 0, [world.A(1)])),
+        ('DELETE provider || PUT aggregates@1.18', reqs.del_rp(P(2)),
+         reqs.put_aggs(P(2), None, [world.A(1)], mv='1.18')),
+        ('DELETE provider || POST child under it', reqs.del_rp(P(2)),
+         reqs.mk_rp(3, parent=P(2))),
+        ('DELETE inventory || PUT allocations on it',
+         reqs.del_inv(P(1), 'VCPU'), reqs.put_alloc(K(1), {P(1): {'VCPU': 1}})),
+        ('DELETE inventories || POST allocations on it',
+         reqs.del_invs(P(1)), reqs.post_allocs({K(1): {'allocs': {P(1): {'VCPU': 1}}}})),
+        ('PUT inventories dropping class || PUT allocations on it',
+         reqs.put_invs(P(1), 1, {}), reqs.put_alloc(K(1), {P(1): {'VCPU': 1}})),
+        ('DELETE allocations || DELETE provider', reqs.del_alloc(K(9)), reqs.del_rp(P(1))),
+    ]
+    out = []
+    for name, a, b in pairs:
+        a, b = dict(a), dict(b)
+        a['tag'] = name.split(' || ')[0]
+        b['tag'] = name.split(' || ')[1]
+        setup = base
+        if 'DELETE allocations' in name:
+            setup = base + [reqs.put_alloc(K(9), {P(1): {'VCPU': 1}})]
+        out.append({'name': name, 'setup': setup, 'requests': [a, b], 'bound': None,
+                    'max_exec': 4000})
+    return out
+
+
 def run(ctx):
     if ctx.quick:
         depth = 3
@@ -40,11 +85,28 @@ def run(ctx):
         depth = 6
         ctx.budget = ctx.budget or 1500
     st = explore_seq.explore(ctx, 'vp.props.c08', 'Spec', (2,), max_depth=depth)
+    # second part: every interleaving of a DELETE with a request that starts using the entity
+    from vp import explore_conc
+    sc = conc_scenarios()
+    tot = explore_conc.run_scenarios(ctx, 'C08', sc)
     fill(ctx, st, 'BFS from the empty service over creation, replacement and deletion of '
          'providers (root/child), inventories (VCPU + a custom class), custom class, custom trait, '
          'aggregates, allocations of two consumers, reshaper removing a class; oracle: INV-ref on '
-         'the raw rows after every request + refusal/cascade semantics of every DELETE')
+         'the raw rows after every request + refusal/cascade semantics of every DELETE; plus ALL '
+         'interleavings (transaction granularity) of %d pairs "DELETE of an entity || request that '
+         'starts using it", judged by INV-ref/INV-forest on the final rows and serial equivalence'
+         % len(sc))
+    ctx.coverage['concurrent_part'] = {
+        'scenarios': tot['scenarios'], 'states': tot['states'], 'transitions': tot['transitions'],
+        'schedules_executed': tot['executions'], 'outcome_vectors': tot['outcome_vectors'],
+        'notes_not_judged': tot['notes']}
+    ctx.coverage['states'] += tot['states']
+    ctx.coverage['transitions'] += tot['transitions']
+    ctx.coverage['traces_validated_against_impl'] += tot['executions']
 
 
 def replay(ctx, data):
+    if data.get('engine') == 'conc':
+        from vp import explore_conc
+        return explore_conc.replay(ctx, data)
     return explore_seq.replay(ctx, data)
